@@ -389,12 +389,18 @@ impl<N, E, S: BuildHasher, Ty: EdgeType, Null: Nullable<Wrapped = E>, Ix: IndexT
         for id in self.nodes.iter_ids() {
             let position = self.to_edge_position(a, NodeIndex::new(id));
             if let Some(pos) = position {
+                if !self.node_adjacencies[pos].is_null() {
+                    self.nb_edges -= 1;
+                }
                 self.node_adjacencies[pos] = Default::default();
             }
 
             if Ty::is_directed() {
                 let position = self.to_edge_position(NodeIndex::new(id), a);
                 if let Some(pos) = position {
+                    if !self.node_adjacencies[pos].is_null() {
+                        self.nb_edges -= 1;
+                    }
                     self.node_adjacencies[pos] = Default::default();
                 }
             }
